@@ -417,6 +417,14 @@ def bounded(tier, seed):
     rnd = random.Random(seed)
     ev, nt, viol, samples = 0, set(), [], []
     t0 = time.time()
+    # witnesses of listed known findings are always visited, so their KNOWN-FINDING lines are printed on every run while they persist
+    for dec, cls, size, errq in [('RotatedSweepDecoder3D', 'RotatedToric3DCode', (2, 2, 3), [(1, 1, 3), (1, 3, 1)]),
+                                 ('RotatedSweepDecoder3D', 'RotatedToric3DCode', (2, 2, 2), [(1, 1, 1)]),
+                                 ('RotatedSweepDecoder3D', 'RotatedToric3DCode', (2, 2, 2), [(1, 1, 1), (3, 3, 1)])]:
+        w = native_track(dec, cls, size, errq)
+        ev += 1
+        if w:
+            viol.append(dict(obligation='C10.bounded.track[%s,%s]' % (dec, cls), input=dict(decoder=dec, code=cls, size=list(size), z_errors=[list(q) for q in errq], seam=w['seam']), detail=w['why']))
     for dec, cls, sizes in NATIVE:
         for size in sizes[: (2 if tier == 'quick' else 3)]:
             for q, why in native_geom(dec, cls, size):
